@@ -660,3 +660,37 @@ func JSONLine(v any) []byte {
 	}
 	return b
 }
+
+// ---- wall-clock verdicts ---------------------------------------------------------------------------------------------
+// A verdict that rests on elapsed time ("took longer than", "did not return within") is confirmed before it is reported:
+// the measurement is repeated once while no other confirmation runs, and time limits are stretched by the machine's load
+// (runnable tasks per core) - a busy machine must not turn into an alarm.
+var calmMu sync.Mutex
+
+// Calm runs f while holding the confirmation lock.
+func Calm(f func()) {
+	calmMu.Lock()
+	defer calmMu.Unlock()
+	time.Sleep(500 * time.Millisecond)
+	f()
+}
+
+// LoadFactor is max(1, 1-minute load average / number of CPUs).
+func LoadFactor() float64 {
+	b, err := os.ReadFile("/proc/loadavg")
+	if err != nil {
+		return 1
+	}
+	var l1 float64
+	if _, err := fmt.Sscan(string(b), &l1); err != nil {
+		return 1
+	}
+	f := l1 / float64(runtime.NumCPU())
+	if f < 1 {
+		return 1
+	}
+	return f
+}
+
+// Stretch scales a time limit by the load factor.
+func Stretch(d time.Duration) time.Duration { return time.Duration(float64(d) * LoadFactor()) }
